@@ -716,6 +716,141 @@ theorem resolve_err_iff_selfcontained (env : Env) (hl : env.loader = none) (fuel
 
 end completeness
 
+/-! ### The completeness theorems on non-trivial data
+
+`dsEnv` (above): an embedded resource, an anchor of the same name inside and outside it, four references.
+All hypotheses of `resolve_complete_selfcontained` hold — W3–W6 by evaluation of the checkers, D by a table of
+witnesses (`dsCert`: lineage of the referring schema, lineage of the identified resource root, lineage of the
+target) checked by `checkRefs` — so the theorem yields a successful resolution. -/
+
+section completeness_examples
+open Spec RComp
+
+/-- for `$ref` in schema `id`: ⟨lineage of `id`, lineage of the resource root, the root, lineage of the target, target⟩ -/
+def dsCert : NodeId → Bool → DesigCert
+  | 3, _ => ⟨[3], [], 0, [1], 1⟩         -- "#foo" in the root resource: the `foo` outside
+  | 4, _ => ⟨[4], [2], 2, [2, 6], 6⟩     -- "sub.json#foo": the `foo` inside
+  | 5, _ => ⟨[5], [2], 2, [], 6⟩         -- "sub.json#/$defs/c"
+  | 7, _ => ⟨[2, 7], [2], 2, [2, 6], 6⟩  -- "#foo" inside the embedded resource
+  | _, _ => ⟨[], [], 0, [], 0⟩
+
+theorem ds_all : allNodes dsStore (dsStore.size + 2) [0] = [0, 1, 2, 6, 7, 3, 4, 5] := by decide +kernel
+theorem ds_W3 : structureOk dsStore 0 = true := by decide +kernel
+theorem ds_W4 : localOk dsEnv 0 = true := by decide +kernel
+theorem ds_W5 : (topDoc dsEnv 0).idsOk {} = true := by decide +kernel
+theorem ds_W6 : (topDoc dsEnv 0).uniqueIds {} = true := by decide +kernel
+theorem ds_D : (topDoc dsEnv 0).RefsDesignate {} (allNodes dsEnv.st (dsEnv.st.size + 2) [0]) := by
+  have h : allNodes dsEnv.st (dsEnv.st.size + 2) [0] = [0, 1, 2, 6, 7, 3, 4, 5] := ds_all
+  rw [h]
+  exact checkRefs_sound _ _ _ dsCert (by decide +kernel)
+
+/-- every hypothesis of the completeness theorem holds for `dsEnv`, hence Resolve succeeds -/
+example : ∃ rs, Go.resolve dsEnv 1 0 "" = .ok rs :=
+  resolve_complete_selfcontained_checked dsEnv rfl 1 (by decide) 0 "" {} rfl rfl ds_W3 ds_W4 ds_W5 ds_W6 ds_D
+
+/-- the same through the iff -/
+example : ∃ rs, Go.resolve dsEnv 1 0 "" = .ok rs :=
+  (resolve_ok_iff_selfcontained dsEnv rfl 1 (by decide) 0 "" (by
+      intro b hb
+      have : retrievalOf "" = .ok ({} : Uri.Url) := rfl
+      rw [this] at hb
+      simp only [Res.ok.injEq] at hb
+      subst hb
+      exact uniqueIds_sound _ _ ds_W6)).mpr
+    ⟨{}, rfl, rfl, ds_W3, ds_W4, idsOk_sound _ _ ds_W5, ds_D⟩
+
+/-! Dropping the designation hypothesis: `dgStore` = `dsStore` with the reference of schema 7 changed to `#bar` —
+    no schema of the embedded resource declares `bar`.  W1–W6 still hold, every other reference still designates its
+    target; Resolve returns an error; and by the completeness theorem, the reference of schema 7 designates nothing,
+    which is the hypothesis of `dangling_ref_is_error`. -/
+
+def dgStore : Store := #[
+  { id := "http://a/root.json", defs := some [("a", 1), ("b", 2)], allOf := some [3, 4, 5] },
+  { anchor := "foo" },
+  { id := "sub.json", defs := some [("c", 6)], items := some 7 },
+  { ref := "#foo" },
+  { ref := "sub.json#foo" },
+  { ref := "sub.json#/$defs/c" },
+  { anchor := "foo" },
+  { ref := "#bar" } ]
+def dgEnv : Env := { st := dgStore, reOk := fun _ => true, loader := none }
+
+example : (Go.resolve dgEnv 1 0 "").verdict = some false := by decide +kernel
+
+theorem dg_dangling : ¬ ∃ t, (topDoc dgEnv 0).Designates {} 7 "#bar" t := by
+  intro h7
+  have hall : allNodes dgEnv.st (dgEnv.st.size + 2) [0] = [0, 1, 2, 6, 7, 3, 4, 5] := by decide +kernel
+  have hrest : (topDoc dgEnv 0).RefsDesignate {} [0, 1, 2, 6, 3, 4, 5] :=
+    checkRefs_sound _ _ _ dsCert (by decide +kernel)
+  have hD : (topDoc dgEnv 0).RefsDesignate {} (allNodes dgEnv.st (dgEnv.st.size + 2) [0]) := by
+    rw [hall]
+    intro id hid n hn
+    by_cases h : id = 7
+    · subst h
+      have hn7 : n = { ref := "#bar" } := by
+        have : (topDoc dgEnv 0).st.get? 7 = some { ref := "#bar" } := rfl
+        rw [this] at hn
+        exact (Option.some.inj hn).symm
+      subst hn7
+      exact ⟨fun _ => h7, fun hne => absurd rfl hne⟩
+    · apply hrest id _ n hn
+      simp only [List.mem_cons, List.mem_nil_iff, or_false] at hid ⊢
+      rcases hid with h0 | h0 | h0 | h0 | h0 | h0 | h0 | h0
+      all_goals first | exact absurd h0 h | simp [h0]
+  obtain ⟨rs, hrs⟩ := resolve_complete_selfcontained_checked dgEnv rfl 1 (by decide) 0 "" {} rfl rfl
+    (by decide +kernel) (by decide +kernel) (by decide +kernel) (by decide +kernel) hD
+  have hv : (Go.resolve dgEnv 1 0 "").verdict = some false := by decide +kernel
+  rw [hrs] at hv
+  simp [Res.verdict] at hv
+
+/-- so `dangling_ref_is_error` applies: an error, for every positive fuel -/
+example (fuel : Nat) (hfuel : 1 ≤ fuel) : Go.resolve dgEnv fuel 0 "" = .err :=
+  (dangling_ref_is_error dgEnv rfl fuel 0 "" 7 { ref := "#bar" } (by decide +kernel) rfl (by
+    intro b hb
+    have : retrievalOf "" = .ok ({} : Uri.Url) := rfl
+    rw [this] at hb
+    simp only [Res.ok.injEq] at hb
+    subst hb
+    exact Or.inl ⟨by decide, dg_dangling⟩)).2 hfuel
+
+/-- a reference that leaves the document (`other.json`, no Loader): an error as well -/
+example : (Go.resolve { dsEnv with st := dsStore.set! 3 { ref := "other.json" } } 1 0 "").verdict = some false := by
+  decide +kernel
+
+/-! W6 cannot be dropped, and resolve.go does not check it: two subschemas with the same `$id`.  The second
+    registration silently replaces the first in `resolvedURIs`; the reference `x.json#/$defs/t` designates schema 4
+    (in the first resource, schema 1), all of W1–W5 and D hold, and Resolve fails with "no key t" because it looks in
+    the second resource (schema 2).  With the names `a` and `b` exchanged it succeeds.  (Replayed on the Go package:
+    same outcome.) -/
+
+def dupStore : Store := #[
+  { id := "http://a/root.json", defs := some [("a", 1), ("b", 2)], allOf := some [3] },
+  { id := "x.json", defs := some [("t", 4)] },
+  { id := "x.json" },
+  { ref := "x.json#/$defs/t" },
+  { } ]
+def dupEnv : Env := { st := dupStore, reOk := fun _ => true, loader := none }
+
+example : (Go.resolve dupEnv 1 0 "").verdict = some false := by decide +kernel
+example : structureOk dupStore 0 = true ∧ localOk dupEnv 0 = true ∧ (topDoc dupEnv 0).idsOk {} = true := by
+  decide +kernel
+example : (topDoc dupEnv 0).RefsDesignate {} (allNodes dupEnv.st (dupEnv.st.size + 2) [0]) := by
+  have h : allNodes dupEnv.st (dupEnv.st.size + 2) [0] = [0, 1, 4, 2, 3] := by decide +kernel
+  rw [h]
+  exact checkRefs_sound _ _ _ (fun _ _ => ⟨[3], [1], 1, [], 4⟩) (by decide +kernel)
+/-- what fails is W6 -/
+example : (topDoc dupEnv 0).uniqueIds {} = false := by decide +kernel
+example : ¬ (topDoc dupEnv 0).UniqueIds {} := by
+  intro h
+  have h1 : (topDoc dupEnv 0).Identifies {} "http://a/x.json" 1 :=
+    Or.inr ⟨⟨[1], by decide +kernel, by decide +kernel⟩, _, ⟨[1], by decide +kernel, rfl⟩, by decide +kernel⟩
+  have h2 : (topDoc dupEnv 0).Identifies {} "http://a/x.json" 2 :=
+    Or.inr ⟨⟨[2], by decide +kernel, by decide +kernel⟩, _, ⟨[2], by decide +kernel, rfl⟩, by decide +kernel⟩
+  exact absurd (h _ _ _ h1 h2) (by decide)
+
+end completeness_examples
+
+
 /-! ## Tests of the URL model against RFC 3986 §5.4 (reference resolution examples) -/
 
 section rfc3986_examples
